@@ -812,12 +812,25 @@ func (e *env) reorgGapHazard(cur, anc *block, included []*types.Transaction, st 
 		if st[a].Nonce >= cur.st[a].Nonce || len(pend[e.u.addrs[a]]) == 0 {
 			continue
 		}
-		for n := st[a].Nonce; n < cur.st[a].Nonce; n++ {
+		// The finding needs the transaction at the new state nonce to come back (it is promoted in
+		// front of the higher nonces that stayed pending) and a later one not to. When the front
+		// transaction is certainly refused on the new branch (unaffordable there, or above its gas
+		// limit) nothing is promoted, the pool sees a gap in front and postpones the whole list: that
+		// path is not the finding and stays in the search.
+		front := back[key{a, st[a].Nonce}]
+		frontRefused := front != nil && (front.Cost().Cmp(st[a].Bal) > 0 || front.Gas() > gl)
+		if frontRefused {
+			stats.Label("random", "reorg_front_tx_refused_on_new_branch")
+			continue
+		}
+		for n := st[a].Nonce + 1; n < cur.st[a].Nonce; n++ {
 			tx := back[key{a, n}]
 			if tx == nil || !room || tx.GasPrice().Cmp(floor) < 0 || tx.Cost().Cmp(st[a].Bal) > 0 || tx.Gas() > gl {
 				return true
 			}
 		}
+		// only the front transaction can fail: either everything comes back, or the front is missing
+		// and the list is postponed
 	}
 	return false
 }
